@@ -22,6 +22,8 @@ def enum_plans(tier):
             dict(cfg="B", depth=8 if th else 6, maxtime=8 if th else 6, alpha=["ceaok", "dpa", "stopf", "stop"], maxconn=1),
             # after a ready connection and stop(): the peer stops reading, sends its own DPR (crossing the node's), a watchdog request, its DPA
             dict(cfg="A", depth=6 if th else 5, maxtime=4 if th else 3, alpha=["stall", "dpr", "dwr", "dpa"], maxconn=1, prefix=stopping_prefix()),
+            # a node listening on two addresses: every listening socket is closed when stop() returns
+            dict(cfg="A2L", depth=5 if th else 4, maxtime=4 if th else 3, alpha=["cerok", "stop", "stopf"], maxconn=1),
             # persistent peers: reconnect deadlines inside the shutdown window (the first peer's exchange is over early, the second answers late)
             dict(cfg="C", depth=7 if th else 6, maxtime=5 if th else 4, alpha=["dpa"], faults=False, maxconn=3, prefix=two_peers_stopping_prefix())]
 
